@@ -27,6 +27,8 @@ template <class T> static void consist (Gen<T>& g, int k)
 {
     const char* t = tg<T> ();
     Quat<T> q = unitq<T> (g, k), p = unitq<T> (g, k * 7 + 3);
+    if (k % 23 == 5) q = Quat<T> (1, 0, 0, 0);                     // exactly the identity: zero vector part (log and exp divide by its length)
+    if (k % 23 == 6) p = Quat<T> (1, 0, 0, 0);
     Vec3<T> v (g.pick (k % 3), g.pick (k % 3), g.pick (k % 3));
     {
         Rec r ("rot"); r.str ("t", t); r.raw ("q", jv (q)); r.raw ("v", jv (v));
@@ -83,6 +85,11 @@ template <class T> static void setrot (Gen<T>& g, int k)
         to = -from.normalized () * (T) std::cos (d) + perp * (T) std::sin (d);
         to *= (T) (1 + (k % 5));
     }
+    if (k % 12 == 8)
+    {   // exactly opposite along a coordinate axis, both signs, any lengths
+        from = Vec3<T> (0, 0, 0); from[(k / 12) % 3] = (T) (((k / 36) % 2) ? -1.0 : 1.0) * (T) (1 + (k / 72) % 3);
+        to = -from * (T) (((k / 216) % 2) ? 0.5 : 3.0);
+    }
     if (to.length () == 0) to = Vec3<T> (0, 0, 1);
     Quat<T> q; q.setRotation (from, to);
     Rec r ("setrot"); r.str ("t", t); r.raw ("from", jv (from)); r.raw ("to", jv (to)); r.raw ("q", jv (q)); r.raw ("m", jv (rotationMatrix (from, to))); r.emit ();
@@ -113,6 +120,8 @@ template <class T> static void slerps (Gen<T>& g, int k)
         auto step = [&] (const Quat<T>& q) { Quat<T> d ((T) 1, g.full () / 4, g.full () / 4, g.full () / 4); return (q * d.normalized ()).normalized (); };
         q1 = step (q0); q2 = step (q1); q3 = step (q2); q4 = step (q3);
     }
+    if (k % 9 == 4) { q1 = q0; q2 = q0; }                           // a held pose: three coincident keys
+    if (k % 9 == 5) { q2 = q1; }
     if ((q1 ^ q2) < 0) q2 = -q2;
     if ((q0 ^ q1) < 0) q0 = -q0;
     if ((q2 ^ q3) < 0) q3 = -q3;
